@@ -473,7 +473,16 @@ mod rel {
         let wsp: &[&str] = &["", " ", "  ", "\n ", " \n  "];
         for _ in 0..3000 * crate::scale() {
             let ne = r.below(4);
-            let rels = Relations((0..ne).map(|_| { let na = 1 + r.below(3); (0..na).map(|_| gen(&mut r)).collect() }).collect());
+            let mut rels = Relations((0..ne).map(|_| { let na = 1 + r.below(3); (0..na).map(|_| gen(&mut r)).collect() }).collect());
+            // entries that are a proper prefix of one another (same alternatives plus one or two that sort last)
+            if ne > 0 && r.below(3) == 0 {
+                for _ in 0..1 + r.below(2) {
+                    let mut e: Vec<Relation> = r.pick(&rels.0).clone();
+                    for k in 0..1 + r.below(2) { let mut x = gen(&mut r); x.name = format!("zz{}", k); e.push(x); }
+                    let at = r.below(rels.0.len() + 1);
+                    rels.0.insert(at, e);
+                }
+            }
             let substvar = r.below(4) == 0 || ne == 0;
             // messy text
             let mut t = String::new();
@@ -528,6 +537,31 @@ mod rel {
             }
             let firsts: Vec<_> = back.entries().filter_map(|e| e.relations().next().map(|x| key(&x))).collect();
             for w in firsts.windows(2) { if !ordered(&w[0], &w[1]) { return Err(Fail { prop: "C13".into(), input: shown, what: "the entries are not sorted (by their first alternative: name, then Debian version order)".into(), expected: "sorted".into(), got: text }); } }
+            // ... and no entry sorts strictly before an EARLIER one (all pairs, not only neighbours: an inconsistent
+            // comparison can leave neighbours in order and the whole list unsorted): alternatives compared one by one,
+            // a proper prefix first; pairs this oracle cannot order (same name, different operators) end the comparison
+            let cmp3 = |a: &(String, Option<(VersionConstraint, debversion::Version)>), b: &(String, Option<(VersionConstraint, debversion::Version)>)| -> Option<std::cmp::Ordering> {
+                if a.0 != b.0 { return Some(a.0.cmp(&b.0)); }
+                match (&a.1, &b.1) {
+                    (None, None) => Some(std::cmp::Ordering::Equal),
+                    (None, Some(_)) => Some(std::cmp::Ordering::Less),
+                    (Some(_), None) => Some(std::cmp::Ordering::Greater),
+                    (Some((ca, va)), Some((cb, vb))) => if ca == cb { Some(va.cmp(vb)) } else { None },
+                }
+            };
+            let all: Vec<Vec<_>> = back.entries().map(|e| e.relations().map(|x| key(&x)).collect::<Vec<_>>()).filter(|e: &Vec<_>| !e.is_empty()).collect();
+            for i in 0..all.len() { for j in i + 1..all.len() {
+                let (a, b) = (&all[i], &all[j]);
+                let mut verdict = None;
+                let mut k = 0;
+                loop {
+                    if k == a.len() || k == b.len() { verdict = Some(a.len().cmp(&b.len())); break; }
+                    match cmp3(&a[k], &b[k]) { None => break, Some(std::cmp::Ordering::Equal) => { k += 1; } Some(o) => { verdict = Some(o); break; } }
+                }
+                if verdict == Some(std::cmp::Ordering::Greater) {
+                    return Err(Fail { prop: "C13".into(), input: shown, what: format!("entry {} of the result sorts after entry {} (alternatives compared one by one by name, then unversioned first, then Debian version order; a proper prefix first)", i, j), expected: "sorted".into(), got: text });
+                }
+            } }
             // idempotent: on the re-read field and on the returned object itself
             let again = back.wrap_and_sort().to_string();
             if again != text { return Err(Fail { prop: "C13".into(), input: shown, what: "normalising the result again changes it".into(), expected: text, got: again }); }
@@ -1141,9 +1175,76 @@ mod derive16 {
                 if which == "lossless" && !printed.contains("# keep me\nX-Foreign-B: 2\n") { return Err(fail(format!("{} (lossless paragraph)", shown), "update_paragraph lost the comment in front of a foreign field", "# keep me".into(), printed)); }
             }
         }
+        // error clause: a missing mandatory field, or a value the field's reader rejects, gives an error naming the field
+        for (i, f) in fields.iter().enumerate() {
+            let all: Vec<(String, String)> = fields.iter().map(|g| (g.0.to_string(), g.1.to_string())).collect();
+            if !f.2 {
+                n += 1;
+                let pairs: Vec<(String, String)> = all.iter().enumerate().filter(|(j, _)| *j != i).map(|(_, kv)| kv.clone()).collect();
+                let shown = format!("{} from {:?}", name, pairs);
+                let p: Lossy = pairs.into_iter().collect();
+                match <T as FromDeb822Paragraph<Lossy>>::from_paragraph(&p) {
+                    Ok(_) => return Err(fail(shown, &format!("from_paragraph accepts a paragraph without the mandatory field {}", f.0), format!("Err naming {}", f.0), "Ok".into())),
+                    Err(e) => if !e.contains(f.0) { return Err(fail(shown, &format!("the error for the missing mandatory field {} does not name it", f.0), format!("an error naming {}", f.0), e)); }
+                }
+            }
+            n += 1;
+            let mut pairs = all.clone();
+            pairs[i].1 = "\u{1}?bad".to_string();
+            let shown = format!("{} from {:?}", name, pairs);
+            let p: Lossy = pairs.into_iter().collect();
+            match <T as FromDeb822Paragraph<Lossy>>::from_paragraph(&p) {
+                // the field's type accepts any text: then the value must carry the field
+                Ok(x) => { let back: Lossy = x.to_paragraph(); if back.get(f.0).is_none() { return Err(fail(shown, &format!("from_paragraph swallows the unreadable value of {} (the field is absent from the value)", f.0), format!("Err naming {}, or a value that has the field", f.0), "Ok without the field".into())); } }
+                Err(e) => if !e.contains(f.0) { return Err(fail(shown, &format!("the error for the unparsable value of {} does not name the field", f.0), format!("an error naming {}", f.0), e)); }
+            }
+        }
         Ok(n)
     }
     include!("gen_c16.rs");
+
+    /// typed values the field tables cannot produce (the tables start from texts): empty lists in list-valued fields, and
+    /// list values that begin on the line after the field name (lossy paragraphs report them with an empty first line)
+    pub fn typed_values() -> Result<usize, Fail> {
+        use debian_control::lossy::apt::{Source, Release};
+        let mut n = 0;
+        let rows = table("debian_control::lossy::apt::Source");
+        let p0: Lossy = rows.iter().map(|r| (r.0.to_string(), r.1.to_string())).collect();
+        let base = Source::from_paragraph(&p0).map_err(|e| fail("apt::Source from its field table".into(), "from_paragraph rejects the sample paragraph", "Ok".into(), e))?;
+        let mut variants: Vec<(&str, Source)> = vec![];
+        let mut a = base.clone(); a.package_list = vec![]; variants.push(("package_list = []", a));
+        let mut b = base.clone(); b.binaries = Some(vec![]); variants.push(("binaries = Some([])", b));
+        let mut c = base.clone(); c.package_list = vec!["a deb x optional".to_string(), "b deb x optional".to_string()]; variants.push(("package_list of two lines", c));
+        for (what, v) in variants {
+            n += 1;
+            let lp: Lossy = v.to_paragraph();
+            let back = Source::from_paragraph(&lp);
+            if back.as_ref().ok() != Some(&v) { return Err(fail(format!("apt::Source with {}", what), "value -> lossy paragraph -> value is not the same value", format!("{:?}", v.package_list), format!("{:?}", back.map(|x| x.package_list)))); }
+            let ll: Lossless = v.to_paragraph();
+            let back = Source::from_paragraph(&ll);
+            if back.as_ref().ok() != Some(&v) { return Err(fail(format!("apt::Source with {}", what), "value -> lossless paragraph -> value is not the same value", format!("{:?}", v.package_list), format!("{:?}", back.map(|x| x.package_list)))); }
+        }
+        // the same text read through both back-ends gives the same list
+        let mut text = String::new();
+        for r in rows { if r.0 == "Package-List" { text.push_str("Package-List:\n a deb x optional\n b deb x optional\n"); } else { text.push_str(&format!("{}: {}\n", r.0, r.1.replace('\n', "\n "))); } }
+        n += 1;
+        let lp: Lossy = text.parse().map_err(|_| fail(text.clone(), "the lossy reader rejects the sample paragraph", "Ok".into(), "Err".into()))?;
+        let doc: deb822_lossless::Deb822 = text.parse().map_err(|_| fail(text.clone(), "the lossless reader rejects the sample paragraph", "Ok".into(), "Err".into()))?;
+        let ll = doc.paragraphs().next().unwrap();
+        let x = Source::from_paragraph(&lp).map_err(|e| fail(text.clone(), "from_paragraph (lossy)", "Ok".into(), e))?;
+        let y = Source::from_paragraph(&ll).map_err(|e| fail(text.clone(), "from_paragraph (lossless)", "Ok".into(), e))?;
+        if x.package_list != y.package_list { return Err(fail(text, "a list value that begins on the line after the field name reads differently through lossy and lossless paragraphs", format!("{:?}", y.package_list), format!("{:?}", x.package_list))); }
+        // Release: empty component / architecture lists
+        let rows = table("debian_control::lossy::apt::Release");
+        let p0: Lossy = rows.iter().map(|r| (r.0.to_string(), r.1.to_string())).collect();
+        let mut rel = Release::from_paragraph(&p0).map_err(|e| fail("apt::Release from its field table".into(), "from_paragraph rejects the sample paragraph", "Ok".into(), e))?;
+        rel.components = vec![]; rel.architectures = vec![];
+        n += 1;
+        let lp: Lossy = rel.to_paragraph();
+        let back = Release::from_paragraph(&lp);
+        if back.as_ref().ok() != Some(&rel) { return Err(fail("apt::Release with empty components and architectures".into(), "value -> paragraph -> value is not the same value", "equal".into(), format!("{:?}", back))); }
+        Ok(n)
+    }
 }
 
 // ---------------------------------------------------------------------------------------------------------
@@ -1299,7 +1400,7 @@ fn main() {
         match typed20::run() { Ok(n) => { eprintln!("vwit C20: no failing input among {} documents", n); return; } Err(f) => f.print_and_exit() }
     }
     if prop == "C16" {
-        match derive16::run_all() { Ok(n) => { eprintln!("vwit C16: no failing input among {} struct values", n); return; } Err(f) => f.print_and_exit() }
+        match derive16::run_all().and_then(|n| derive16::typed_values().map(|m| n + m)) { Ok(n) => { eprintln!("vwit C16: no failing input among {} struct values", n); return; } Err(f) => f.print_and_exit() }
     }
     if prop == "C15" {
         match acc::run() { Ok(n) => { eprintln!("vwit C15: no failing input among {} Buildinfo records", n); return; } Err(f) => f.print_and_exit() }
